@@ -404,6 +404,39 @@ def run_case(case, ctx):
     # --- call history: the first track of a matching is itself the output of an earlier matching (it already
     # carries the link features), matched now against a track of another size
     prev = M.call(C.match, ta, tb, C.MODE_MATCHING_DTW, 2, dim, False)
+    # --- call history: the very same two Track objects are matched again after one of them was edited in place
+    # (same number of fixes, other positions); score and coupling must be those of the CURRENT positions
+    if not M.is_raised(prev):
+        which = case.get("idx", 0) % 2
+        te = (ta, tb)[which]
+        for i in range(te.size()):
+            pos = te.getObs(i).position
+            x0, y0, z0 = pos.getX(), pos.getY(), pos.getZ()
+            pos.setX(2.0 * x0 - y0 + 1.0 + (i % 2))
+            pos.setY(y0 + x0 * (i % 3) - 1.0)
+            pos.setZ(z0 + (i % 2) * 2.0)
+        A3 = list(zip(ta.getX(), ta.getY(), ta.getZ()))
+        B3 = list(zip(tb.getX(), tb.getY(), tb.getZ()))
+        D3 = [[_dist(A3[i], B3[j], dim) for j in range(n2)] for i in range(n1)]
+        p3 = PS[(case.get("idx", 0) // 2) % len(PS)]
+        r3 = M.call(C.match, ta, tb, C.MODE_MATCHING_DTW, _pval(p3), dim, False)
+        w, _ = _check_matching("match(DTW) on the same two Track objects after one was edited in place", r3, D3, p3,
+                               dp_optimum(D3, p3), ctx, n1, n2)
+        cls.add("edited_in_place_history")
+        if not w:
+            c3 = M.call(C.compare, ta, tb, C.MODE_COMPARISON_FRECHET, 1, dim, False)
+            if M.is_raised(c3) or not _close(float(c3), dp_optimum(D3, "inf")):
+                w = {"what": "compare(FRECHET) on the same two Track objects after one was edited in place is not the "
+                             "discrete Frechet distance of the current positions", "got": c3,
+                     "expected": dp_optimum(D3, "inf")}
+        if w:
+            w["edited_track"] = which + 1
+            w["positions_now"] = {"track1": [list(q) for q in A3], "track2": [list(q) for q in B3]}
+            return fail(w, p3)
+        A = A3
+        a = [list(q) for q in A3]
+        b = [list(q) for q in B3]
+        prev = M.call(C.match, ta, tb, C.MODE_MATCHING_DTW, 2, dim, False)
     if not M.is_raised(prev):
         b2 = [tuple(q) for q in reversed(b)] + [tuple(a[0])]
         if case.get("idx", 0) % 3 == 0:
